@@ -219,6 +219,7 @@ func init() {
 		fr.ex.cfgPreemptFn(strArg(fr, a[0]))
 		return nil
 	})
+	reg(vfPkg+".Slow", func(fr *frame, a []value) value { return nil })
 	reg(vfPkg+".Yield", func(fr *frame, a []value) value { fr.ex.preemptPoint(); return nil })
 	reg(vfPkg+".Concretize", func(fr *frame, a []value) value {
 		return int(fr.ex.asIntC(a[0], "vf.Concretize"))
@@ -618,7 +619,9 @@ func bytesToString(fr *frame, b []value) value {
 			if txt, okc := jb.concreteText(); okc {
 				return txt
 			}
-			return symv{fr.ex.freshVar("blobtext", sString)}
+			t := fr.ex.freshVar("blobtext", sString)
+			fr.ex.blobOf[t] = jb
+			return symv{t}
 		}
 	}
 	bs := make([]byte, len(b))
